@@ -317,10 +317,9 @@ class AccessControlList(SimComponent):
         # 4: destination ip address (str castable to IPV4Address (e.g. '10.10.1.2'))
         # 5: destination port (str name of a Port (e.g. "HTTP"))
         # 6: position (int)
-        rm.add_request(
-            "add_rule",
-            RequestType(
-                func=lambda request, context: RequestResponse.from_bool(
+        def _add_rule_request(request: List, context: Dict) -> RequestResponse:
+            try:
+                return RequestResponse.from_bool(
                     self.add_rule(
                         action=ACLAction[request[0]],
                         protocol=None if request[1] == "ALL" else request[1],
@@ -333,13 +332,17 @@ class AccessControlList(SimComponent):
                         position=int(request[8]),
                     )
                 )
-            ),
-        )
+            except ValueError as e:
+                return RequestResponse(status="failure", data={"reason": str(e)})
 
-        rm.add_request(
-            "remove_rule",
-            RequestType(func=lambda request, context: RequestResponse.from_bool(self.remove_rule(int(request[0])))),
-        )
+        def _remove_rule_request(request: List, context: Dict) -> RequestResponse:
+            try:
+                return RequestResponse.from_bool(self.remove_rule(int(request[0])))
+            except ValueError as e:
+                return RequestResponse(status="failure", data={"reason": str(e)})
+
+        rm.add_request("add_rule", RequestType(func=_add_rule_request))
+        rm.add_request("remove_rule", RequestType(func=_remove_rule_request))
         return rm
 
     def describe_state(self) -> Dict:
@@ -429,7 +432,7 @@ class AccessControlList(SimComponent):
         :param int position: The position in the ACL list to insert this rule. Defaults is position 0 right at the top.
         :raises ValueError: If the position is out of bounds.
         """
-        if 0 <= position < self.max_acl_rules:
+        if 0 <= position < self.max_acl_rules - 1:
             if self._acl[position]:
                 self.sys_log.info(f"Overwriting ACL rule at position {position}")
             self._acl[position] = ACLRule(
